@@ -168,6 +168,23 @@ theorem C09_closed_is_final (e : Ep) (ev : Ev) (hc : e.closed = true) :
   cases ev <;> simp only [hc, if_true] <;> (try rfl)
   · rename_i t; unfold popRx; split <;> rfl
 
+/-- **Nothing is dispatched after the message which closed the connection**: the messages which
+    follow it in the same read are not handed to `recv_message` — they are neither recorded as processed
+    nor answered (the `recv_raw` loop stops when the socket is gone). -/
+theorem C09_no_dispatch_after_close (e : Ep) (m : Msg) (ms : List Msg) (hc : e.closed = false)
+    (hm : (handleMsg { e with rxMore := !ms.isEmpty || e.rx.dead } m).1.closed = true) :
+    handleMsgs e (m :: ms) = handleMsg { e with rxMore := !ms.isEmpty || e.rx.dead } m := by
+  have h2 : ∀ (x : Ep), x.closed = true → handleMsgs x ms = (x, []) := by
+    intro x hx
+    cases ms with
+    | nil => rfl
+    | cons m' ms' => simp [handleMsgs, hx]
+  unfold handleMsgs
+  rw [if_neg (by simp [hc])]
+  simp only []
+  rw [h2 _ hm]
+  simp
+
 /-- **No transfer is silently dropped once its final segment is out**: at every point of every
     execution (termination requested or not, any peer), each transfer whose END segment the endpoint has
     emitted is still awaiting its final acknowledgement, or has been reported `success`, or was refused
